@@ -276,8 +276,12 @@ Lemma classes_ok_refuted :
   missing quadrupole_cls = ["num_steps"; "tracking_method"] /\ missing screen_cls = ["is_blocking"] /\
   missing undulator_cls = ["is_active"] /\ extra spacechargekick_cls = ["grid_shape"].
 Proof. vm_compute. repeat split. Qed.
-Lemma pinned_rows_accepted : forallb class_accepted pinned_rows = true.
-Proof. vm_compute. reflexivity. Qed.
+(* since fix b273117 the exception list is empty: the four offending rows of the pinned tree are rejected by the per-run
+   obligation (a regression of F12 breaks [table_ok]); a consistent class (Drift) is accepted *)
+Lemma pinned_offenders_now_rejected :
+  forallb (fun c => negb (class_accepted c)) [quadrupole_cls; screen_cls; undulator_cls; spacechargekick_cls] = true
+  /\ class_accepted drift_cls = true.
+Proof. vm_compute. split; reflexivity. Qed.
 (* the exception list excuses nothing else: Quadrupole that additionally drops k1 is rejected *)
 Lemma exception_list_is_exact :
   class_accepted (mkcls "Quadrupole" (ctor_params quadrupole_cls) (required quadrupole_cls)
